@@ -58,7 +58,7 @@ func (m *mptForBytes) Reset(s trie.Immutable) error {
 
 func (m *mptForBytes) Prove(k []byte, proof [][]byte) ([]byte, error) {
 	obj, err := m.mpt.Prove(k, proof)
-	if err != nil {
+	if err != nil || obj == nil {
 		return nil, err
 	}
 	return obj.Bytes(), nil
